@@ -15,6 +15,7 @@ import (
 	"strconv"
 	"strings"
 	"sync"
+	"time"
 
 	"pgregory.net/rapid"
 )
@@ -336,6 +337,14 @@ type harnessError struct{ msg string }
 // runCheck checks one case; if the property defines related cases it then checks those and the case once more
 // (history independence). Failures of the repeated check are reported with the kind prefix "after-related:".
 func runCheck(p *prop, s *stats, c any) (unexplained []Fail) {
+	if ms := os.Getenv("VERIF_SLOW_MS"); ms != "" {
+		t0 := time.Now()
+		defer func() {
+			if lim, _ := strconv.Atoi(ms); time.Since(t0) > time.Duration(lim)*time.Millisecond {
+				fmt.Printf("SLOW %v %s\n", time.Since(t0), jsonStr(c))
+			}
+		}()
+	}
 	unexplained = runCheckOnce(p, s, c)
 	if len(unexplained) > 0 {
 		return unexplained
